@@ -388,7 +388,7 @@ def lru_args(ctx):
                 continue
             # capacity 0 keeps the cache empty, capacity 1 holds a single node and capacity 3 never
             # evicts with 3 keys: one step shorter than capacity 2
-            args.append((cap, list(p), L if cap == 2 else L - 1, first))
+            args.append((cap, list(p), L if cap == 2 else min(L - 1, 7), first))
             first = False
     return args, L
 
@@ -413,14 +413,14 @@ def run(ctx):
     for r in pmap('harness.props.c15', 'lru_random_shard', [(ctx.seed, i, nr) for i in range(16)]):
         res.merge(r)
     t2 = time.time()
-    nh = ctx.n(190, 4000)
+    nh = ctx.n(190, 3000)
     for r in pmap('harness.props.c15', 'hist_shard', [(ctx.seed, i, nh, 25) for i in range(16)]):
         res.merge(r)
     t3 = time.time()
     res.notes.append('wall: lru-exhaustive %.1fs, lru-random %.1fs, loader histories %.1fs' % (t1 - t0, t2 - t1, t3 - t2))
-    res.rule = ('container: every sequence over get/set x 3 keys of length <= %d (capacity 2; one less for 0, 1 and 3) followed by all reads, '
+    res.rule = ('container: every sequence over get/set x 3 keys of length <= %d (capacity 2; min(%d-1, 7) for capacities 0, 1 and 3; sequences starting with a miss on the empty cache are represented by their tail) followed by all reads, '
                 'plus seeded random sequences over the whole alphabet (half of them 20-40 operations on capacities 4-5 with 6-8 keys, the rest <= 60 operations, 2-8 keys, capacities 0-7) compared after every step; non-trivial = an eviction or a miss occurred; '
-                % L)
+                % (L, L))
     res.samples = res.samples[:6]
     return res
 
